@@ -381,12 +381,12 @@ func round(ctx *context, args []Datum) (retNum Datum) {
 
 	num0 := args[0].Number("round()")
 
-	// Trunc() rounds towards zero.
-	var rounded = 0.0
-	if num0 >= 0 {
-		rounded = float64(math.Trunc(0.5 + num0))
-	} else {
-		rounded = -float64(math.Trunc(0.5 - num0))
+	// XPath 1.0 4.4: the integer closest to the argument, ties towards
+	// positive infinity.  NaN, the infinities and both zeros are returned
+	// unchanged, and [-0.5, 0) gives negative zero (Ceil keeps the sign).
+	rounded := math.Floor(num0)
+	if num0-rounded >= 0.5 {
+		rounded = math.Ceil(num0)
 	}
 
 	return NewNumDatum(rounded)
